@@ -95,7 +95,7 @@ From PC Require Import Schemes.Marlin Schemes.Sonic Proofs.MarlinComplete Proofs
 Theorem C01_sonic_check_complete_partial :
   forall (FO : FieldOps) (FL : FieldLaws FO) g gam h beta n m ck vk (items : list (LPoly * Rand)) cs z chal pf rest,
     sck_g ck = gpowers g 1 beta n -> sck_gamma ck = gpowers gam 1 beta m ->
-    svk_vk vk = {| vk_g := g; vk_gamma_g := gam; vk_h := h; vk_beta_h := h * beta |} ->
+    vk_g (svk_vk vk) = g -> vk_gamma_g (svk_vk vk) = gam -> vk_h (svk_vk vk) = h -> vk_beta_h (svk_vk vk) = h * beta ->
     length cs = length items ->
     Forall (fun it => (length (snd it) <= m)%nat) items ->
     (exists sps, Forall2 (fun cb sp => shift_power vk (snd cb) = Ok sp) cs sps /\
@@ -105,3 +105,17 @@ Theorem C01_sonic_check_complete_partial :
     s_check vk cs z (map (fun it => eval (lp_poly (fst it)) z) items) pf chal = Ok (true, rest).
 Proof. exact @sonic_check_complete. Qed.
 Print Assumptions C01_sonic_check_complete_partial.
+
+(* Sonic end to end: parameters from setup (any trapdoor beta <> 0 and generators), keys from trim (any supported degree,
+   hiding bound and list of enforced bounds), commitments from commit (with degree bounds, with or without hiding, any
+   RNG tape), the proof from open for any selection of the committed polynomials at any point with any challenges: check
+   accepts the true values and leaves the challenge tape where the prover left it *)
+From PC Require Import Proofs.SonicKeys.
+Theorem C01_sonic_complete :
+  forall (FO : FieldOps) (FL : FieldLaws FO) D beta g gam h up s sh bounds ck vk lps rng csts nd z chal pf rest,
+    setup D true beta g gam h = Ok up -> strim up s sh bounds = Ok (ck, vk) -> beta <> 0 ->
+    s_commit_all ck lps rng = Ok (csts, nd) ->
+    s_open ck (combine lps (map snd csts)) z chal = Ok (pf, rest) ->
+    s_check vk (combine (map fst csts) (map lp_bound lps)) z (map (fun lp => eval (lp_poly lp) z) lps) pf chal = Ok (true, rest).
+Proof. exact @sonic_complete. Qed.
+Print Assumptions C01_sonic_complete.
